@@ -21,6 +21,13 @@
     of `(`, and of `Digits '.'` as a Number (`lexer_inverts_spelling`, `lexer_any_whitespace`,
     `lexer_without_whitespace`, their `…_placed` forms, `tokeniser_without_whitespace`,
     `operator_name_rule`, `function_name_rule`, `trailing_dot_rule`, `lexer_passes`, `merging_pairs`);
+    conversely the lexer ignores nothing: whenever the tokeniser accepts, the input is exactly white space
+    runs and the spellings of the returned tokens interleaved, every token is one the lexer can produce
+    and is not extended by the next character, the adjacency flags are exactly the empty runs — so the
+    accepted inputs are precisely the padded spellings (`lexer_ignores_nothing`,
+    `lexer_tokens_wellformed`, `lexer_accepts_exactly_spellings`); `lex` is the tokeniser followed by
+    the passes and rejects the same inputs (`lexer_is_tokeniser_then_passes`); the passes respell and
+    invent nothing and remove only `.` tokens (`lexer_passes_keep_spelling`);
     and end to end on STRINGS: the characters of the canonical spelling of every well-formed tree with
     ordinary names are lexed and parsed back to that tree, under xsel's syntax and under XPath's
     (`string_roundtrip_model`, `string_roundtrip_spec`; none of the three passes changes a canonical
@@ -39,6 +46,7 @@ import Proofs.Lemmas.ParseGram
 import Proofs.Lemmas.ParseRender
 import Proofs.Lemmas.ParseRenderNum
 import Proofs.Lemmas.LexRound
+import Proofs.Lemmas.LexSound
 import Proofs.Lemmas.ParseFuel
 import Proofs.Lemmas.ParseAbbrev
 import Proofs.Lemmas.ParseAbbrevDot
@@ -334,6 +342,84 @@ example : lex lexModel "child::a[@b='x']//c".toList =
          ⟨.p .at, true⟩, ⟨.ncname ['b'], true⟩, ⟨.p .eq, true⟩, ⟨.lit false ['x'], true⟩, ⟨.p .rbrack, true⟩,
          ⟨.p .dslash, true⟩, ⟨.ncname ['c'], true⟩] := by
   decide +kernel
+
+/-! ### the converse: nothing in the input is ignored -/
+
+/-- **lexer_ignores_nothing** — every character of an accepted input is white space between tokens or
+    part of exactly one returned token, in order: the input is the white space runs `ws` (one before
+    every token, possibly empty) and the spellings of the returned tokens interleaved, followed by
+    trailing white space; the `glued` flags say exactly where there was no white space (the first token
+    is never glued).  An input with anything else in it is not answered `.ok`. -/
+theorem lexer_ignores_nothing (lc : LexCfg) (cs : Chars) (ts : List LTok) (h : lexRaw lc cs = .ok ts) :
+    ∃ (ws : List Chars) (trail : Chars),
+      ws.length = ts.length ∧
+      (∀ w ∈ ws, ∀ c ∈ w, isSpace lc c = true) ∧ (∀ c ∈ trail, isSpace lc c = true) ∧
+      cs = spellPadded (ws.zip (ts.map (·.tok))) trail ∧
+      ts = padToks false (ws.zip (ts.map (·.tok))) :=
+  lexRaw_sound lc cs ts h
+
+/-- **lexer_tokens_wellformed** — every returned token is one the lexer can produce from its spelling
+    (`tokOk`: names are names and not keywords, digits are digits, literals contain neither their quote
+    nor a backslash, variable references are `$name` or `$name:name`) -/
+theorem lexer_tokens_wellformed (lc : LexCfg) (cs : Chars) (ts : List LTok) (h : lexRaw lc cs = .ok ts) :
+    ∀ t ∈ ts, tokOk lc t.tok = true :=
+  lexRaw_tokOk lc cs ts h
+
+/-- one token: it is spelled at the start of the input, the rest is handed on, it is well formed and
+    maximal (the next character does not extend it) -/
+theorem lexer_one_token (lc : LexCfg) (cs : Chars) (t : Tok) (rest : Chars) (h : lexOne lc cs = .tok t rest) :
+    cs = t.spell ++ rest ∧ tokOk lc t = true ∧ headOk t rest.head? = true :=
+  lexOne_sound lc cs t rest h
+
+/-- with `lexer_any_whitespace` / `tokeniser_without_whitespace` (`lexRaw_spellPadded`): the tokeniser
+    accepts exactly the padded spellings (`padOk`: white space runs, well-formed tokens, after every
+    token a character that does not extend it) and answers the token list that was spelled -/
+theorem lexer_accepts_exactly_spellings (lc : LexCfg) (cs : Chars) (ts : List LTok) :
+    lexRaw lc cs = .ok ts ↔
+      ∃ (items : List (Chars × Tok)) (trail : Chars),
+        padOk lc items trail = true ∧ cs = spellPadded items trail ∧ ts = padToks false items :=
+  lexRaw_iff lc cs ts
+
+/-- the full lexer is the tokeniser followed by the passes: it accepts only what the tokeniser accepts
+    and rejects exactly what the tokeniser rejects -/
+theorem lexer_is_tokeniser_then_passes (lc : LexCfg) (cs : Chars) :
+    (∀ ts', lex lc cs = .ok ts' → ∃ ts, lexRaw lc cs = .ok ts ∧ ts' = lc.post ts)
+    ∧ (lex lc cs = .err ↔ lexRaw lc cs = .err)
+    ∧ (lex lc cs = .unsup ↔ lexRaw lc cs = .unsup) :=
+  ⟨fun ts' h => lex_sound lc cs ts' h, lex_err_iff lc cs, lex_unsup_iff lc cs⟩
+
+/-- **lexer_passes_keep_spelling** — the passes respell nothing, invent nothing and reorder nothing (the
+    spellings after `lc.post` are a sublist of the spellings before); what they remove are `.` tokens only
+    (the spellings other than `.` are the same before and after — `trailing_dot_rule`: a `.` written
+    directly after integer digits and not directly before digits, XPath's Number `Digits '.'`); and with
+    the trailing-dot rule off every spelling is kept -/
+theorem lexer_passes_keep_spelling (lc : LexCfg) (ts : List LTok) :
+    ((lc.post ts).map (·.tok.spell)).Sublist (ts.map (·.tok.spell))
+    ∧ ((lc.post ts).map (·.tok.spell)).filter (· != ['.']) = (ts.map (·.tok.spell)).filter (· != ['.'])
+    ∧ ((lc.post ts).map (·.tok)).filter (· != .p .dot) =
+        ((lc.fnPass (lc.opPass ts)).map (·.tok)).filter (· != .p .dot)
+    ∧ (lc.dotRule = false → (lc.post ts).map (·.tok.spell) = ts.map (·.tok.spell)) :=
+  ⟨(post_removed lc ts).1, (post_removed lc ts).2, post_keeps_nondots lc ts,
+   fun hd => post_spell_of_dotRule_false hd ts⟩
+
+/-- `child::a[@b='x']//c`: the decomposition, through the theorem -/
+example : ∃ (ws : List Chars) (trail : Chars),
+    ws.length = 11 ∧ (∀ w ∈ ws, ∀ c ∈ w, isSpace lexModel c = true) ∧ (∀ c ∈ trail, isSpace lexModel c = true) ∧
+    "child::a[@b='x']//c".toList = spellPadded (ws.zip [.kw (.axis .child), .p .coloncolon, .ncname ['a'],
+      .p .lbrack, .p .at, .ncname ['b'], .p .eq, .lit false ['x'], .p .rbrack, .p .dslash, .ncname ['c']]) trail :=
+  have h : lexRaw lexModel "child::a[@b='x']//c".toList =
+      .ok [⟨.kw (.axis .child), false⟩, ⟨.p .coloncolon, true⟩, ⟨.ncname ['a'], true⟩, ⟨.p .lbrack, true⟩,
+           ⟨.p .at, true⟩, ⟨.ncname ['b'], true⟩, ⟨.p .eq, true⟩, ⟨.lit false ['x'], true⟩, ⟨.p .rbrack, true⟩,
+           ⟨.p .dslash, true⟩, ⟨.ncname ['c'], true⟩] := by decide +kernel
+  let ⟨ws, trail, h1, h2, h3, h4, _⟩ := lexer_ignores_nothing lexModel _ _ h
+  ⟨ws, trail, h1, h2, h3, h4⟩
+/-- … and exhibited: all runs empty, no trailing white space -/
+example : "child::a[@b='x']//c".toList = spellPadded (List.zip [[], [], [], [], [], [], [], [], [], [], []]
+      [.kw (.axis .child), .p .coloncolon, .ncname ['a'], .p .lbrack, .p .at, .ncname ['b'], .p .eq,
+       .lit false ['x'], .p .rbrack, .p .dslash, .ncname ['c']]) [] := by decide
+/-- a character that belongs to no token is an error, not skipped -/
+example : lex lexModel "child::a ? b".toList = .err := by decide +kernel
+example : lex lexModel "a[@b='x]".toList = .err := by decide +kernel
 
 /-! ### end to end: tree → characters → tokens → tree
 
